@@ -61,6 +61,8 @@ def handle (args : List String) (impl : String) : String × String :=
           match shape src with
           | .ordinary | .hexB => ("skip", "any")
           | _ => ("skip", litPred src impl)
+        -- an error whose message is not one of the three known texts (reworded): the kind is not compared
+        else if impl.startsWith "err other" then ("skip", litPred src impl)
         else (outExp (transformLiteral src), litPred src impl)
     else ("bad-op", "bad-op")
   | ["rt", bs, rs, x] =>
